@@ -694,6 +694,20 @@ type receiptResp struct {
 	Result []receiptResult `json:"result"`
 }
 
+// sameBlock reports an error when data fetched by a later call names
+// another block hash than the block it is about to be attached to.
+// The header (or an earlier call) and this call then saw different
+// versions of the chain: a reorg landed in between, or the block came
+// from the cache and has been replaced since. Attaching the data
+// anyway would store one block's fields under another block's hash.
+func sameBlock(b *eth.Block, hash []byte, rpc string) error {
+	if len(b.Header.Hash) == 32 && !bytes.Equal(b.Header.Hash, hash) {
+		const tag = "%s block hash mismatch (reorg?). num=%d have=%.4x got=%.4x"
+		return fmt.Errorf(tag, rpc, b.Num(), b.Header.Hash, hash)
+	}
+	return nil
+}
+
 func (c *Client) receipts(ctx context.Context, url string, bm blockmap, start, limit uint64) error {
 	var (
 		reqs  = make([]request, limit)
@@ -731,7 +745,15 @@ func (c *Client) receipts(ctx context.Context, url string, bm blockmap, start, l
 		if !ok {
 			return fmt.Errorf("block not found")
 		}
-		b.Header.Hash.Write(resps[i].Result[0].BlockHash)
+		b.Lock()
+		err := sameBlock(b, resps[i].Result[0].BlockHash, "eth_getBlockReceipts")
+		if err == nil {
+			b.Header.Hash.Write(resps[i].Result[0].BlockHash)
+		}
+		b.Unlock()
+		if err != nil {
+			return err
+		}
 		for j := range resps[i].Result {
 			if uint64(resps[i].Result[j].BlockNum) != blockNum {
 				const tag = "eth_getBlockReceipts mixed blocks in one response. num=%d want=%d"
@@ -841,6 +863,10 @@ func (c *Client) logs(ctx context.Context, url string, filter *glf.Filter, bm bl
 			return fmt.Errorf("block not found")
 		}
 		b.Lock()
+		if err := sameBlock(b, logs[0].BlockHash, "eth_getLogs"); err != nil {
+			b.Unlock()
+			return err
+		}
 		b.Header.Hash.Write(logs[0].BlockHash)
 		tx := b.Tx(k.b)
 		tx.PrecompHash.Write(logs[0].TxHash)
@@ -894,7 +920,15 @@ func (c *Client) traces(ctx context.Context, url string, bm blockmap, start, lim
 		if !ok {
 			return fmt.Errorf("missing block in block map")
 		}
-		block.Header.Hash.Write(res.Result[0].BlockHash)
+		block.Lock()
+		err = sameBlock(block, res.Result[0].BlockHash, "trace_block")
+		if err == nil {
+			block.Header.Hash.Write(res.Result[0].BlockHash)
+		}
+		block.Unlock()
+		if err != nil {
+			return err
+		}
 
 		var tracesByTx = map[key][]traceBlockResult{}
 		for i := range res.Result {
